@@ -2,3 +2,5 @@ mod chars;
 mod layout;
 pub(crate) mod method;
 mod search;
+#[cfg(feature = "verif-hooks")]
+pub(crate) mod verif_hooks;
